@@ -1,1 +1,4 @@
 // hook file for ntp-proto/src/nts/record.rs: declares the per-property harness modules
+#[cfg(any(verif_all, verif_c30))]
+#[path = "/verif/harness/ntp-proto/c30.rs"]
+mod c30;
